@@ -500,11 +500,11 @@ func (c *Ctx) Eq(a, b *Term) *Term {
 	if a.ID > b.ID {
 		a, b = b, a
 	}
-	// (ite c x y) == const folding when branches are constants
-	if b.IsConst() && a.Op == OIte && a.Args[1].IsConst() && a.Args[2].IsConst() {
+	// (ite c x y) == const folding when leaves are constants
+	if b.IsConst() && a.Op == OIte && constLeafIte(a, 0) {
 		return c.Ite(a.Args[0], c.Eq(a.Args[1], b), c.Eq(a.Args[2], b))
 	}
-	if a.IsConst() && b.Op == OIte && b.Args[1].IsConst() && b.Args[2].IsConst() {
+	if a.IsConst() && b.Op == OIte && constLeafIte(b, 0) {
 		return c.Ite(b.Args[0], c.Eq(b.Args[1], a), c.Eq(b.Args[2], a))
 	}
 	return c.mk(OEq, Bool, []*Term{a, b}, 0, "", 0, 0)
@@ -661,11 +661,32 @@ func (c *Ctx) BNot(a *Term) *Term {
 	return c.mk(OBNot, a.Sort, []*Term{a}, 0, "", 0, 0)
 }
 
+// constLeafIte reports whether t is an ite tree whose leaves are constants.
+func constLeafIte(t *Term, depth int) bool {
+	if t.IsConst() {
+		return true
+	}
+	if t.Op != OIte || depth > 40 {
+		return false
+	}
+	return constLeafIte(t.Args[1], depth+1) && constLeafIte(t.Args[2], depth+1)
+}
+
 func (c *Ctx) cmp(op Op, a, b *Term) *Term {
 	if a.Sort != b.Sort || a.Sort.K != KBV {
 		panic(fmt.Sprintf("%v: sort mismatch %v %v", op, a.Sort, b.Sort))
 	}
 	w := a.Sort.W
+	if b.IsConst() && a.Op == OIte && constLeafIte(a, 0) {
+		return c.Ite(a.Args[0], c.cmp(op, a.Args[1], b), c.cmp(op, a.Args[2], b))
+	}
+	if a.IsConst() && b.Op == OIte && constLeafIte(b, 0) {
+		return c.Ite(b.Args[0], c.cmp(op, a, b.Args[1]), c.cmp(op, a, b.Args[2]))
+	}
+	// zero-extended values are below any constant that needs more bits
+	if b.IsConst() && a.Op == OZExt && (op == OULt || op == OULe) && a.Args[0].Sort.W < 64 && b.U > mask(a.Args[0].Sort.W) {
+		return c.True()
+	}
 	if a.IsConst() && b.IsConst() {
 		var r bool
 		switch op {
@@ -714,7 +735,7 @@ func (c *Ctx) Extract(a *Term, hi, lo int) *Term {
 	if (a.Op == OZExt || a.Op == OSExt) && hi < a.Args[0].Sort.W {
 		return c.Extract(a.Args[0], hi, lo)
 	}
-	if a.Op == OIte && a.Args[1].IsConst() && a.Args[2].IsConst() {
+	if a.Op == OIte && constLeafIte(a, 0) {
 		return c.Ite(a.Args[0], c.Extract(a.Args[1], hi, lo), c.Extract(a.Args[2], hi, lo))
 	}
 	return c.mk(OExtract, BV(w), []*Term{a}, 0, "", hi, lo)
@@ -742,6 +763,9 @@ func (c *Ctx) ZExt(a *Term, w int) *Term {
 	if a.IsConst() {
 		return c.BVC(w, a.U)
 	}
+	if a.Op == OIte && constLeafIte(a, 0) {
+		return c.Ite(a.Args[0], c.ZExt(a.Args[1], w), c.ZExt(a.Args[2], w))
+	}
 	return c.mk(OZExt, BV(w), []*Term{a}, 0, "", 0, 0)
 }
 
@@ -756,6 +780,26 @@ func (c *Ctx) SExt(a *Term, w int) *Term {
 		return c.BVC(w, uint64(sext(a.U, a.Sort.W)))
 	}
 	return c.mk(OSExt, BV(w), []*Term{a}, 0, "", 0, 0)
+}
+
+// SelectConst reads table[idx] for a table of constants, pushing the read
+// through constant-leaf ite trees in the index.
+func (c *Ctx) SelectConst(idx *Term, table []*Term) *Term {
+	if idx.IsConst() {
+		if idx.U < uint64(len(table)) {
+			return table[idx.U]
+		}
+		return table[0]
+	}
+	if idx.Op == OIte && constLeafIte(idx, 0) {
+		return c.Ite(idx.Args[0], c.SelectConst(idx.Args[1], table), c.SelectConst(idx.Args[2], table))
+	}
+	n := len(table)
+	r := table[n-1]
+	for i := n - 2; i >= 0; i-- {
+		r = c.Ite(c.Eq(idx, c.BVC(idx.Sort.W, uint64(i))), table[i], r)
+	}
+	return r
 }
 
 // ---- floats ----
